@@ -19,6 +19,43 @@ use std::collections::{HashMap, HashSet};
 pub const VOCAB_OBJECTS: [&str; 10] = ["GLOBAL", "EMPTY_TUPLE", "EMPTY_DICT", "NONE", "REDUCE", "BUILD", "BINPUT", "BINGET", "DUP", "SETITEM"];
 pub const VOCAB_CONTAINERS: [&str; 11] = ["EMPTY_LIST", "EMPTY_TUPLE", "EMPTY_DICT", "NONE", "APPEND", "SETITEM", "TUPLE1", "TUPLE2", "DUP", "BINPUT", "BINGET"];
 
+/// MARK-delimited bulk opcodes and sets (protocol >= 4 for EMPTY_SET / ADDITEMS)
+pub const VOCAB_MARKED: [&str; 11] = ["EMPTY_SET", "EMPTY_LIST", "EMPTY_DICT", "MARK", "NONE", "ADDITEMS", "APPENDS", "SETITEMS", "TUPLE", "BINPUT", "BINGET"];
+
+/// container sizes that sit just past the small-collection thresholds an implementation may have
+/// (inline capacities, 32-entry fast paths, one-byte counts)
+pub const PADS: [usize; 2] = [33, 300];
+
+/// the program with its first freshly created list / set / dict filled with `k` members before it is
+/// used (MARK NONE*k APPENDS | ADDITEMS | SETITEMS); None when it creates no such container
+pub fn padded(prog: &Program, k: usize) -> Option<Program> {
+    let at = prog.ops.iter().position(|o| matches!(*o, "EMPTY_LIST" | "EMPTY_SET" | "EMPTY_DICT"))?;
+    let (per, close) = match prog.ops[at] {
+        "EMPTY_LIST" => (1, "APPENDS"),
+        "EMPTY_SET" => (1, "ADDITEMS"),
+        _ => (2, "SETITEMS"),
+    };
+    let mut ops: Vec<&'static str> = prog.ops[..=at].to_vec();
+    ops.push("MARK");
+    for _ in 0..k * per {
+        ops.push("NONE");
+    }
+    ops.push(close);
+    ops.extend_from_slice(&prog.ops[at + 1..]);
+    Some(Program { ops })
+}
+
+/// lowest protocol class a program can be steered in
+fn protocol_for(prog: &Program, i: usize) -> u8 {
+    if prog.ops.iter().any(|o| matches!(*o, "EMPTY_SET" | "ADDITEMS" | "FROZENSET")) {
+        if i % 2 == 0 { 4 } else { 5 }
+    } else if i % 2 == 0 {
+        2
+    } else {
+        4
+    }
+}
+
 fn make_op(name: &'static str, m: &Machine) -> Option<Op> {
     let info = lexer::by_name(name)?;
     let arg = match name {
@@ -191,11 +228,14 @@ pub fn explore(vocab: &[&'static str], depth: usize, max_states: usize) -> (Vec<
 pub fn steer(p: u8, prog: &Program) -> Option<Vec<u8>> {
     let mut script: Vec<u8> = if p >= 4 { vec![0] } else { vec![] };
     let mut done: Vec<u8> = vec![];
+    // the byte that selected an opcode last time is tried first (runs of the same opcode)
+    let mut last_byte: HashMap<u8, u8> = HashMap::new();
     for name in &prog.ops {
         let want = lexer::by_name(name)?.code;
         let depth = done.len() + 1;
         let mut hit = None;
-        for b in 0..=255u8 {
+        let hint = last_byte.get(&want).copied();
+        for b in hint.into_iter().chain(0..=255u8) {
             let mut s2 = script.clone();
             s2.push(b);
             let (_sc, _recs, ops, consumed) = engine::tree_probe(p, &s2, depth);
@@ -204,6 +244,7 @@ pub fn steer(p: u8, prog: &Program) -> Option<Vec<u8>> {
                     s2.resize(consumed, 0);
                 }
                 hit = Some(s2);
+                last_byte.insert(want, b);
                 break;
             }
         }
@@ -213,12 +254,27 @@ pub fn steer(p: u8, prog: &Program) -> Option<Vec<u8>> {
     Some(script)
 }
 
+/// program text with runs of one opcode written as NAME*k
+pub fn describe(prog: &Program) -> String {
+    let mut out: Vec<String> = vec![];
+    let mut i = 0;
+    while i < prog.ops.len() {
+        let mut j = i;
+        while j < prog.ops.len() && prog.ops[j] == prog.ops[i] {
+            j += 1;
+        }
+        out.push(if j - i > 2 { format!("{}*{}", prog.ops[i], j - i) } else { prog.ops[i..j].join(" ") });
+        i = j;
+    }
+    out.join(" ")
+}
+
 pub fn scenario_for(p: u8, prog: &Program, script: Vec<u8>) -> Scenario {
     let mut sc = Scenario::solo(engine::tree_config(p, prog.ops.len()), Entropy::Bytes(script));
     sc.faults.push(crate::desc::Fault {
         kind: "steered",
         at: 0,
-        detail: format!("steered to the synthesised program {}", prog.ops.join(" ")),
+        detail: format!("steered to the synthesised program {}", describe(prog)),
     });
     sc
 }
@@ -256,8 +312,29 @@ pub struct SynthOutcome {
 /// run is measured by the live-heap conservation probe
 pub fn leak_sweep(depth_objects: usize, depth_containers: usize, stats: &mut engine::Stats) -> SynthOutcome {
     let (mut progs, st1) = cycle_programs(&VOCAB_OBJECTS, depth_objects, 3_000_000);
-    let (p2, st2) = cycle_programs(&VOCAB_CONTAINERS, depth_containers, 3_000_000);
+    let (p2, mut st2) = cycle_programs(&VOCAB_CONTAINERS, depth_containers, 3_000_000);
     progs.extend(p2);
+    let (p3, st3) = cycle_programs(&VOCAB_MARKED, depth_containers, 3_000_000);
+    progs.extend(p3);
+    st2.states += st3.states;
+    st2.transitions += st3.transitions;
+    // size dimension: the shortest programs again with their first container filled past the
+    // small-collection thresholds
+    let short_len = if depth_containers >= 9 { 8 } else { 6 };
+    let mut extra = vec![];
+    for p in progs.iter().filter(|p| p.ops.len() <= short_len) {
+        for k in PADS {
+            // the large fill only for the very shortest programs (steering cost grows with length)
+            if k > 64 && p.ops.len() + 1 > short_len {
+                continue;
+            }
+            if let Some(q) = padded(p, k) {
+                extra.push(q);
+            }
+        }
+    }
+    stats.add("synth.padded_programs(first container filled with 33 / 300 members)", extra.len() as u64);
+    progs.extend(extra);
     let nt = engine::n_threads();
     let parts: Vec<(usize, usize, Vec<(Scenario, crate::props::Violation)>, engine::Stats, Vec<String>)> = std::thread::scope(|s| {
         let progs = &progs;
@@ -271,11 +348,12 @@ pub fn leak_sweep(depth_objects: usize, depth_containers: usize, stats: &mut eng
                     let mut samples = vec![];
                     let mut i = t;
                     while i < progs.len() {
-                        let p = if i % 2 == 0 { 2u8 } else { 4u8 };
+                        let p = protocol_for(&progs[i], i);
                         match steer(p, &progs[i]) {
                             Some(script) => {
                                 steered += 1;
                                 let sc = scenario_for(p, &progs[i], script);
+                                engine::tick();
                                 if samples.len() < 1 && i % 97 == 5 {
                                     samples.push(format!("protocol {}: {}", p, progs[i].ops.join(" ")));
                                 }
